@@ -25,6 +25,9 @@ TypedVals ==
   \o [k \in 1..3 |-> [t |-> "SignatureAlgorithms", tag |-> 13, algs |-> <<<<>>, <<1027>>, <<0, 258, 65535>>>>[k]]]
   \o [k \in 1..4 |-> [t |-> "Heartbeat", tag |-> 15, v |-> <<0, 1, 2, 255>>[k]]]
   \o [k \in 1..3 |-> [t |-> "ALPN", tag |-> 16, protos |-> << <<>>, <<<<104, 50>>>>, <<<<>>, Fill(4, 255), <<1>>>> >>[k]]]
+  \o << [t |-> "ALPN", tag |-> 16, protos |-> <<<<104, 50>>, <<>>>>],                    \* an empty name in LAST position (a trailing zero length byte), alone, twice
+        [t |-> "ALPN", tag |-> 16, protos |-> <<<<>>>>], [t |-> "ALPN", tag |-> 16, protos |-> <<<<>>, <<>>>>],
+        [t |-> "ALPN", tag |-> 16, protos |-> <<<<104, 50>>, <<>>, <<104, 116, 116, 112, 47, 49, 46, 49>>, <<>>>>] >>
   \o << [t |-> "ALPN", tag |-> 16, protos |-> [k \in 1..128 |-> Fill(k, 255)]],          \* a name list of exactly 2^15 bytes
         [t |-> "ALPN", tag |-> 16, protos |-> [k \in 1..255 |-> Fill(k, 255)]],          \* ... and of 65280 bytes
         [t |-> "EllipticCurves", tag |-> 10, groups |-> [k \in 1..16384 |-> k]],          \* lists of 2^15 bytes
